@@ -605,12 +605,46 @@ func ruleK3(c *Ctx) {
 	}
 }
 
+// K4: every slot of the caller's array is used. In each slot-selecting parser the array element is chosen exactly
+// when N < len(array) — the guard on the edge that takes &array[N] is the single fact N - len(array) + 1 <= 0 over
+// the same array and the same counter that index it — so the stored elements are min(N, capacity): a message whose
+// element count equals the capacity loses nothing.
+func ruleK4(c *Ctx) {
+	n := 0
+	for _, s := range findSlotSites(c) {
+		fk := ssaKey(s.fn)
+		n++
+		eb := s.elem.Block()
+		okG, why := false, "the element address is not computed on a branch edge of its own"
+		if len(eb.Preds) == 1 {
+			pb := eb.Preds[0]
+			if iff, ok := pb.Instrs[len(pb.Instrs)-1].(*ssa.If); ok && len(pb.Succs) == 2 && pb.Succs[0] != pb.Succs[1] {
+				env := newLinEnv(linOpts{pathLoads: true})
+				facts := env.condFacts(iff.Cond, pb.Succs[0] == eb)
+				want := env.norm(s.elem.Index).add(lenLinFor(env, s.elem.X), -1).add(linConst(1), 1)
+				why = "guard facts: "
+				for _, f := range facts {
+					why += env.pretty(f.L) + "<=0 "
+				}
+				if len(facts) == 1 {
+					d := facts[0].L.add(want, -1)
+					okG = d.isConst() && d.C == 0
+				}
+				why += "; expected " + env.pretty(want) + "<=0"
+			}
+		}
+		c.check(okG, "K4", fk+":slot-guard", s.elem.Pos(), "the caller's array element is selected exactly when counter < len(array), over the counter and array that index it ("+why+")")
+	}
+	c.check(n >= 5, "K4", "sites", token.NoPos, fmt.Sprintf("%d slot-selecting sites (frozen minimum 5)", n))
+}
+
 func init() {
 	register(&PropDef{
 		ID: "C13",
 		Rules: []Rule{
 			{"K1", "non-interference: in the five slot-selecting parsers no value derived from len(caller array), and no branch on it or on the chosen slot pointer, reaches (by data or control dependence, from post-dominators) a summary store (N, HNo, PFlags, Types, Min/MaxExpires, LastHVal, first-of-type), the flag/first-of-type updates or a return", ruleK1},
 			{"K2", "scratch == fresh (typestate of the scratch slot, path exploration with verdict refinement): whenever the loop goes on to the next element with the scratch slot in use it has been Reset(); more-bytes returns never reset the in-progress slot; resets before the sub-parser call only under scratch.Parsed(); success returns either reset or rely on that lazy entry reset", ruleK2},
+			{"K4", "every slot of the caller's array is used: in each of the five slot-selecting parsers the element &array[N] is chosen on an edge whose only fact is exactly N - len(array) + 1 <= 0 over the same counter and array, so stored elements = min(N, capacity)", ruleK4},
 			{"K3", "counters and classification are unconditional top-level statements of the completion clause; HNo advances exactly on first entry of a header", ruleK3},
 		},
 		Assumptions: []string{"values read through the chosen slot pointer are capacity-independent because scratch and fresh slots are indistinguishable (K2 + C12-Z2)"},
